@@ -1569,11 +1569,13 @@ class Function(Criterion):
 
     def get_function_sql(self, ctx: SqlContext) -> str:
         # pylint: disable=E1111
+        # in the order of the text: values of the arguments are collected before those of the special part
+        args_sql = ",".join(self.get_arg_sql(arg, ctx) for arg in self.args)
         special_params_sql = self.get_special_params_sql(ctx)
 
         return "{name}({args}{special})".format(
             name=self.name,
-            args=",".join(self.get_arg_sql(arg, ctx) for arg in self.args),
+            args=args_sql,
             special=(" " + special_params_sql) if special_params_sql else "",
         )
 
